@@ -165,10 +165,22 @@ CHECKS.update({
   'note': 'Composition of the one-call lemmas over a key stream is by induction (not machine-checked). History geometry: capacity symbolic with depth in {0,1,2,3}, or depth symbolic 1..255 with '
           'capacity in {2,3} (a product of two symbolic factors does not finish on any back end). igris::readline / igris::vterm (C++ re-implementations) are not under contract.'},
 })
+CHECKS.update({
+ 'C19': {
+  'text': 'igris_memmem (first occurrence or NULL, ghost index for "no earlier match"), replace_substrings (confinement to buffer[0..maxsize), termination; match structure in the thorough '
+          'tier), the argv splitters (co-simulated with a reference whitespace tokeniser: argc <= argcmax, argv[k] = start of the k-th maximal non-blank run, nothing read or written at or beyond '
+          'data+maxlen), the mshell/rshell dispatchers (handler of the first token invoked iff it names a command, with the reference argc/argv; blank lines), the path helpers against a '
+          'component-wise reference and creader (cursor inside [strt, fini], nothing read at fini) are proved on exact-size, non-terminated buffers of symbolic length with injected loop '
+          'invariants. The C++ split / split_cmdargs / trim / replace scanning loops are extracted mechanically and co-simulated with a reference tokeniser through a ghost token recorder.',
+  'ref': 'C19', 'technique': 'CBMC loop contracts on exact-size non-terminated buffers; reference tokeniser / path automata co-simulation; cxx2c extraction with ghost token recorder',
+  'note': 'NOT claimed: join (std::vector<std::string> loop is outside the extractor) and "join is split\'s inverse". Bounds: shell command tables <= 3 entries, argcmax in {0,1,2,3}, '
+          'path_is_simple converse up to length 7 (labelled). Open known findings: replace_substrings ignores maxsize, argvc_internal_split_n over-reads / treats NUL as blank (repairs pending '
+          're-anchoring of the units), creader_readline line semantics.'},
+})
 WIP = 'no proof unit built yet in this session (work in progress; see DESIGN.md for the planned contracts)'
 NOT_APPLICABLE = {
  
- 'C19': WIP,
+ 
  'C09': 'quantifies over a family of C++ types assembled by template metaprogramming (partial specialisations, SFINAE, '
         'concepts, std::tuple/map/string, virtual archives); CBMC has no usable C++ front end and the mechanical C '
         'extraction deliberately excludes templates-over-types, so no contract on the real code can state it',
